@@ -115,9 +115,13 @@ fn run_linter(
     custom_ignore_diagnostic_directive: None,
   });
 
-  paths
-    .par_iter()
-    .try_for_each(|file_path| -> Result<(), AnyError> {
+  // A file that cannot be read or parsed ends the run with that error. The
+  // failures are kept by path, so that with several such files the one that is
+  // reported does not depend on how the workers are scheduled.
+  let failures = Arc::new(Mutex::new(BTreeMap::new()));
+
+  paths.par_iter().for_each(|file_path| {
+    let result = (|| -> Result<(), AnyError> {
       let source_code = std::fs::read_to_string(file_path)?;
 
       let (parsed_source, diagnostics) = linter.lint_file(LintFileOptions {
@@ -151,7 +155,15 @@ fn run_linter(
       lock.insert(file_path, (parse_diagnostics, diagnostics));
 
       Ok(())
-    })?;
+    })();
+    if let Err(err) = result {
+      failures.lock().unwrap().insert(file_path, err);
+    }
+  });
+
+  if let Some((_, err)) = failures.lock().unwrap().pop_first() {
+    return Err(err);
+  }
 
   for (parse_diagnostics, d) in file_diagnostics.lock().unwrap().values() {
     for parsing_diagnostic in parse_diagnostics {
